@@ -7,6 +7,7 @@ def sh(cmd, cwd):
     p = subprocess.run(cmd, shell=True, cwd=cwd, env=env, capture_output=True, text=True)
     return p.returncode, p.stdout + p.stderr
 d = sys.argv[1]
+RUNNER = os.environ.get('MAMBACHECK_BIN', './run.sh')
 props = [c['property_id'] for c in json.load(open('/verif/MANIFEST.json'))['checks']]
 rc, st = sh('git status --short', '/repo'); assert st.strip() == '', '/repo dirty'
 for diff in sorted(glob.glob(d + '/*.diff')):
@@ -18,7 +19,7 @@ for diff in sorted(glob.glob(d + '/*.diff')):
         rcb, outb = sh('go build ./...', '/repo')
         bad = []
         for p in props:
-            rc, out = sh(f'./run.sh {p} quick', '/verif')
+            rc, out = sh(f'{RUNNER} {p} quick', '/verif')
             if rc != 0:
                 lines = [l for l in out.splitlines() if l.startswith(('VIOLATION','BROKEN','ANALYSIS')) or '[' in l and ']' in l and ':' in l and not l.startswith(p+' ')]
                 bad.append((p, rc, lines[:6]))
